@@ -46,6 +46,13 @@ check("C07",
   "Producer K0 and twin K9 share only bytes. Heartbeat 5000 ms; the hash-dependent minimum spacing in can_bundle_block makes some fast rounds produce no block (counted).",
   "DESIGN.md §3 C07")
 
+check("C06",
+  "bounded-exhaustive enumeration of single edits of real blocks against the implementation, accepted variants grouped by hash",
+  "exploration",
+  "For three base blocks built by the real producer (golden ticket + routed fee-paying + plain + payload transactions; a post-wrap block with rebroadcast and fee transactions; a fee-less block with a routed transaction) every single edit that keeps the bytes decodable: remove / duplicate / replace / swap every pair / append transaction; one change in every field class of every transaction (signature, timestamp, type, replacement count, input amount/key/coordinates, output amount/key/slip type, payload, routing path strip/truncate/hop-to/hop-sig/append-hop); one bit in each of the 32 header fields; zero and foreign merkle root; creator swapped or block re-signed by another key; transaction count field. Each variant goes bytes -> decode -> VerificationThread::verify_block (original's advertised id/hash) and Blockchain::add_block on a fresh node at the parent. All accepted variants with equal hash must carry byte-identical ordered transaction lists and a creator signature that verifies.",
+  "Single edits only (no edit pairs); three base blocks. Variants with a different hash are different blocks and not judged here.",
+  "DESIGN.md §3 C06")
+
 NOT_YET = "check not built yet in this session (work in progress, see DESIGN.md §8 build order); nothing is claimed for it"
 NA = {}
 
